@@ -34,6 +34,18 @@ def complete_write_rules(ctx):
         ctx.ob('RETRY', 'anchor', False, None, 'expected exactly one function calling Write::write_vectored in the container writer, found %d' % len(cands))
     else:
         retry(ctx, b)
+        # what the retry loop reports is what its caller reports: no second, "fallback" way of writing the same slices on
+        # some error kind (a hard error swallowed, and slices the sink had already accepted sent again under an Ok), and
+        # the only kind of error the module ever inspects is the one it retries on
+        mod = fn_label(b).rsplit('::', 1)[0]
+        units = [x for x in f.body_list if fn_label(x).split('::{closure')[0].rsplit('::', 1)[0] == mod]
+        kinds = [(short_fn(fn_label(x)), short_loc(t.get('span'))) for x in units for bb, t in x.calls()
+                 if not x.is_cleanup(bb) and (cname(t).endswith('io::error::Error::kind') or (t.get('callee') or '').endswith('io::error::Error::kind'))]
+        other_writes = [(short_fn(fn_label(x)), (t.get('callee') or '').rsplit('::', 1)[-1]) for x in units for bb, t in x.calls()
+                        if not x.is_cleanup(bb) and (t.get('callee') or '').startswith('std::io::Write::') and x is not b]
+        in_loop_only = all(k[0] == short_fn(fn_label(b)) for k in kinds)
+        ctx.ob('RETRY', 'one-way-to-the-sink', in_loop_only and len(kinds) <= 1 and not other_writes, short_loc(b.span),
+               'error kinds inspected in %s: %s (only the retry loop\'s Interrupted test); other Write calls in the module: %s' % (mod.rsplit('::', 1)[-1], kinds or 'none', other_writes or 'none'))
     sink(ctx, b)
 
 
